@@ -8,8 +8,8 @@ LinesM == { <<91, 115, 93>>, <<91, 116, 93>>, <<97, 61, 49>>, <<98, 61, 50>>, <<
             <<35, 32, 99>>, <<59, 100>>, <<>>, <<98, 61>> }
 \* quick:  [s]  [t]  a=1  "  b=2"  "a = 4"  "# c"  ""  "b="
 LinesQ == { <<91, 115, 93>>, <<91, 116, 93>>, <<97, 61, 49>>, <<32, 32, 98, 61, 50>>, <<97, 32, 61, 32, 52>>, <<35, 32, 99>>, <<>>, <<98, 61>> }
-\* thorough adds: tab-indented entry, value with inner '=' and blanks, comment that looks like an entry, whitespace-only line
-LinesT == LinesM \cup { <<9, 98, 61, 53>>, <<97, 61, 120, 32, 61, 32, 121>>, <<35, 97, 61, 55>>, <<32>> }
+\* thorough adds: tab-indented entry, value with inner '=' and blanks, comments that look like entries (one indented), whitespace-only line
+LinesT == LinesM \cup { <<9, 98, 61, 53>>, <<97, 61, 120, 32, 61, 32, 121>>, <<35, 97, 61, 55>>, <<32, 59, 98, 61, 56>>, <<32>> }
 \* set() names: s/a, s/b, t/a, u/a (section u never pre-exists), and the plain names a and k
 NamesQ == { << <<115>>, <<97>> >>, << <<115>>, <<98>> >>, << <<117>>, <<97>> >>, << Top, <<97>> >> }
 NamesT == NamesQ \cup { << <<116>>, <<97>> >>, << Top, <<107>> >>, << <<117>>, <<98>> >> }
